@@ -35,6 +35,18 @@ class InjectedFault(RuntimeError):
     pass
 
 
+class InjectedOSError(FileNotFoundError):
+    """An OSError-family failure (missing file, permission, disk full...)."""
+
+
+class InjectedValueError(ValueError):
+    """A ValueError-family failure (e.g. numpy refusing a truncated tile)."""
+
+
+FAULTS = {"runtime": InjectedFault, "oserror": InjectedOSError, "valueerror": InjectedValueError}
+INJECTED = (InjectedFault, InjectedOSError, InjectedValueError)
+
+
 def _mk_filter(accepted):
     s = set(tuple(a) for a in accepted)
 
@@ -72,6 +84,7 @@ class StageHarness(Harness):
     stage = "stage"
     io_points = False
     fail_item = None  # C19: the item whose processing raises
+    fail_exc = "runtime"  # ... and the exception family it raises
     max_states = 400000
     seed = 0
 
@@ -93,7 +106,7 @@ class StageHarness(Harness):
 
     def _maybe_fail(self, key):
         if self.fail_item is not None and tuple(key) == tuple(self.fail_item):
-            raise InjectedFault("injected failure at item %r" % (key,))
+            raise FAULTS[self.fail_exc]("injected failure at item %r" % (key,))
 
     def at_terminal(self, sched, mon):
         viol = []
@@ -313,22 +326,26 @@ def tan_images(n, w=20, h=16, fail_index=None):
     return out
 
 
-_FAILING = []
+_FAILING = {}
 
 
-def failing_image_class():
+def failing_image_class(kind="runtime"):
     """A picklable Image subclass whose parity query raises (C19 fault injection)."""
-    if not _FAILING:
+    if kind not in _FAILING:
         from toasty.image import Image
+
+        exc = FAULTS[kind]
 
         class FailingImage(Image):
             def get_parity_sign(self):
-                raise InjectedFault("injected failure while processing an input image")
+                raise exc("injected failure while processing an input image")
 
-        FailingImage.__qualname__ = "FailingImage"
-        globals()["FailingImage"] = FailingImage
-        _FAILING.append(FailingImage)
-    return _FAILING[0]
+        name = "FailingImage_%s" % kind
+        FailingImage.__name__ = name
+        FailingImage.__qualname__ = name
+        globals()[name] = FailingImage
+        _FAILING[kind] = FailingImage
+    return _FAILING[kind]
 
 
 class _TileStage(StageHarness):
@@ -395,7 +412,7 @@ class MultiTan(_TileStage):
         imgs = tan_images(self.nimg)
         fail = self.fail_item
         if fail is not None:
-            imgs[fail[0]].__class__ = failing_image_class()  # first thing the worker asks of an image raises
+            imgs[fail[0]].__class__ = failing_image_class(self.fail_exc)  # first thing the worker asks of an image raises
         pio = PyramidIO(root, default_format=self.fmt)
         if getattr(self, "_tmpl", None) is None:
             proc = MultiTanProcessor(ListCollection(imgs))
@@ -421,7 +438,7 @@ def _fake_reproject(input_data, output_projection=None, shape_out=None, return_f
     arr, _wcs = input_data
     v = float(np.nanmax(arr))
     if v < 0:
-        raise InjectedFault("injected failure in reprojection")
+        raise FAULTS[{-1: "runtime", -2: "oserror", -3: "valueerror"}[int(round(v))]]("injected failure in reprojection")
     out = np.full(shape_out, np.nan, dtype=np.float64)
     # each input defines its own band of rows so that contributions are all visible
     k = int(round(v))
@@ -442,7 +459,7 @@ class MultiWcs(_TileStage):
         for i, im in enumerate(imgs):
             im.asarray()[...] = float(i + 1)
         if self.fail_item is not None:
-            imgs[self.fail_item[0]].asarray()[...] = -1.0
+            imgs[self.fail_item[0]].asarray()[...] = {"runtime": -1.0, "oserror": -2.0, "valueerror": -3.0}[self.fail_exc]
         pio = PyramidIO(root, default_format=self.fmt)
         if getattr(self, "_tmpl", None) is None:
             proc = MultiWcsProcessor(ListCollection(imgs))
